@@ -44,7 +44,7 @@ ASSUMPTIONS = [
     "defined them",
     "vanilla flavour, generic hardware, no transpiler, Z-basis measurement only (vanilla decodes opcode 41 as mov)",
 ]
-PROBES = ["if-taken", "if-not-taken", "loop", "foreach", "enumerate", "loop_until", "loop_until-early-exit", "add-mod",
+PROBES = ["if-taken", "if-not-taken", "loop", "loop-start-step", "foreach", "enumerate", "loop_until", "loop_until-early-exit", "add-mod",
           "regfuture", "extra-flush-inserted", "value-crosses-flush", "nested-depth-3", "array-loop-init-path"]
 
 
@@ -280,7 +280,7 @@ def run(ch: Choices, opts: Dict[str, Any]) -> Dict[str, Any]:
         bump(probes, k, v)
     # reach probes from the evaluator's view of the program
     kinds = gen.kinds
-    for k in ("loop", "foreach", "enumerate", "loop_until"):
+    for k in ("loop", "loop-start-step", "foreach", "enumerate", "loop_until"):
         if k in kinds:
             bump(probes, k)
     if "add" in kinds and any(s[0] == "add" and s[3] is not None for s in _walk(prog)):
